@@ -91,7 +91,7 @@ def infer(n):
                 if n.attr.lower() == "zip":
                     return ANY
                 raise Refuse("key the dictionary literal does not define")
-            return infer(hits[0])
+            return infer(hits[-1])  # a later entry overrides an earlier one with the same key (repo fix 348bc47)
         if isinstance(vt, dict):
             if n.attr not in vt:
                 raise Refuse("key the dictionary literal does not define")
